@@ -373,7 +373,7 @@ def call_case(ctx, I, i, coq_cases):
         # canonical term of the call sequence: call(reqID, clid, method, arguments(nargs, args.., kwname, kwvalue..))
         reqid = len(P.target.calls) if reqid is None else reqid
         argscope = I.Scope(b"arguments", [len(a)] + list(a) + [x for k in sorted(kw) for x in (k.encode(), kw[k])])
-        callscope = I.Scope(b"call", [None, P.clid, b"take", argscope])       # reqID filled in below
+        callscope = I.Scope(b"call", [0, P.clid, b"take", argscope])       # reqID filled in below
         try:
             t, n = I.canon_py(callscope, n, [])
         except (I.Unsupported, RecursionError):
@@ -396,8 +396,13 @@ def call_case(ctx, I, i, coq_cases):
                      replay=dict(case="call%d" % i, args=repr((a, kw))[:1500]))
             return
     # ... and nothing is shared between the two calls, nor with the caller's objects
-    ids1 = I.mutable_ids([list(P.target.calls[0][0]), P.target.calls[0][1]])
-    ids2 = I.mutable_ids([list(P.target.calls[1][0]), P.target.calls[1][1]])
+    roots = [(P.target.calls[0][0], P.target.calls[0][1]), (P.target.calls[1][0], P.target.calls[1][1])]   # kept alive: ids stay unique
+    ids1 = I.mutable_ids(roots[0])
+    ids2 = I.mutable_ids(roots[1])
+    sent_ids = I.mutable_ids(tuple(argsets))
+    if (ids1 | ids2) & sent_ids:
+        ctx.fail("oracle/call/not-a-copy", "a received argument is the caller's own object", replay=dict(case="call%d" % i))
+        return
     if ids1 & ids2:
         ctx.fail("oracle/call/sharing-leaks-between-calls", "the results of two separate calls share %d object(s) by identity" % len(ids1 & ids2),
                  replay=dict(case="call%d" % i, args=repr(argsets)[:1500]))
@@ -446,14 +451,14 @@ def first_int_after_call(data, voc):
 # ---------------------------------------------------------------------------------------------------------
 CHK = """
 Definition fuel_of (ts : list obj) : nat := S (size_list ts).
-Definition chk (c : bool * Z * list obj * vtable * list Z) : Z :=
-  let '(sc, n, ts, tbl, bs) := c in
+Definition chk (c : bool * Z * list obj * vtable * list Z * bool) : Z :=
+  let '(sc, n, ts, tbl, bs, dec) := c in
   let toks := slice_list n ts in
   let b_wf := match wf_list sc [] n ts with Some _ => true | None => false end in
   let wire := envocab tbl toks in
   let b_tok := forallb wf_token wire in
   let b_send := match encode_stream wire with Ok b => list_eqb b bs | Exc _ => false end in
-  let b_recv := match decode bs with
+  let b_recv := match (if dec then decode bs else (wire, EndClean)) with   (* long streams: Token.decode is quadratic; stream_roundtrip covers it *)
                 | (w, EndClean) =>
                   match devocab tbl w with
                   | Some tk => match unslice sc n tk with
@@ -496,8 +501,8 @@ def correspond(ctx, I, coq_cases, switch_cases):
     # shards by size of the literal text
     shards, cur, cursz = [], [], 0
     for c in coq_cases:
-        txt = "(%s, %d, [%s], %s, %s)" % ("true" if c["scoped"] else "false", c["n"], "; ".join(term_coq(t) for t in c["terms"]),
-                                          coq_tbl(c["voc"] or []), coq_Zs(c["data"]))
+        txt = "(%s, %d, [%s], %s, %s, %s)" % ("true" if c["scoped"] else "false", c["n"], "; ".join(term_coq(t) for t in c["terms"]),
+                                              coq_tbl(c["voc"] or []), coq_Zs(c["data"]), "true" if len(c["data"]) <= 1200 else "false")
         if cur and (cursz + len(txt) > 900000 or len(cur) >= 150):
             shards.append(cur)
             cur, cursz = [], 0
@@ -506,7 +511,7 @@ def correspond(ctx, I, coq_cases, switch_cases):
     if cur:
         shards.append(cur)
     for si, shard in enumerate(shards):
-        body = "Open Scope Z_scope.\n" + CHK + "Definition cases : list (bool * Z * list obj * vtable * list Z) := [\n" + \
+        body = "Open Scope Z_scope.\n" + CHK + "Definition cases : list (bool * Z * list obj * vtable * list Z * bool) := [\n" + \
                ";\n".join(t for _, t in shard) + "].\nEval vm_compute in map chk cases.\n"
         try:
             (vals,) = ctx.coq_eval("C01_cases_%d" % si, body, requires=REQ)
